@@ -75,6 +75,18 @@ def normalise (m : VMap) : Except Err VMap :=
   | some e => .error e
   | none => if m.any (·.1 == 0) then .ok m else .ok (m ++ [(0, "Unknown")])
 
+/-- what the entries of an array given as float data are, before `FloatData.format_type`: real numbers of some width, or
+    complex numbers - which float data cannot hold -/
+inductive FltIn where
+  | real (x : Flt)
+  | complex
+deriving Repr, DecidableEq
+
+/-- `FloatData.format_type`: real entries are taken as they are, a complex array is refused (TypeError) -/
+def acceptF : FltIn → Except Err Flt
+  | .real x => .ok x
+  | .complex => .error .typeError
+
 /-- `NumericData.format_length`: an array shorter than its association is completed with the no-data value
     (NaN before encoding); the model of an array assignment is `(padTo nan n xs).map enc`. -/
 def padTo {α} (nan : α) (n : Nat) (xs : List α) : List α := xs ++ List.replicate (n - xs.length) nan
